@@ -156,14 +156,9 @@ def handle (p : List Sexp) : String :=
     | some rs =>
       let impl := intersectRanges rs
       let spec := intersectRangesSpec rs
-      -- Region (value class, cf. `Gms.C46.intersectRanges_partial`): some later non-nil range does
-      -- not contain the first non-nil range
-      let nonNil := rs.filter (fun r => r.length > 0)
-      let inRegion := match nonNil with
-        | [] => false
-        | first :: rest => rest.any (fun r => !first.isSubsetOf r)
+      -- F-C46-a was repaired (`Gms.C46.intersectRanges_eq_spec`): there is no region any more
       if denEq impl spec then answer (showRange impl)
-      else answer (showRange impl) (showRange spec) (if inRegion then "intersectRanges_result_discarded" else "-")
+      else answer (showRange impl) (showRange spec) "-"
     | none => answer "bad-case"
   | [.list [.atom "sort", rs]] =>
     match parseRanges rs with
